@@ -314,6 +314,11 @@ pub fn pn_alphabet(channels: &[u8], values: &[u8], with_polls: bool, tick: Optio
         }
         a.push(Ev::Msg(0x90 | c, 6, 38));
         a.push(Ev::Msg(0xE0 | c, 98, 99));
+        // system messages whose low status nibble equals the channel and whose data bytes look
+        // like contributing controller numbers (a wrong status mask would route them here)
+        for n in [6u8, 38, 96, 99, 100] {
+            a.push(Ev::Msg(0xF0 | c, n, 1));
+        }
         if with_polls {
             a.push(Ev::Poll(c));
         }
@@ -322,6 +327,16 @@ pub fn pn_alphabet(channels: &[u8], values: &[u8], with_polls: bool, tick: Optio
     a.push(Ev::Msg(0xF2, 6, 38));
     if let Some(t) = tick {
         a.push(Ev::Tick(t));
+        #[cfg(feature = "std")]
+        if with_polls {
+            // a poll right after a clock step just past a boundary of common time
+            // representations (2^32 ns, 1 s, 2^32 us, 1 h), from every state
+            for &c in channels {
+                for h in crate::poll::hostile_ticks(t) {
+                    a.push(Ev::TickPoll(h, c));
+                }
+            }
+        }
     }
     a.push(Ev::Reset);
     a
@@ -783,6 +798,50 @@ pub fn run_c10(cfg: &Cfg, rep: &mut Report) {
         rep.distinct_nontrivial += units;
         rep.count("units_fed_to_never_fresh_scanner", units);
     });
+    // thorough/release: the full product number x value x kind x registered through the real
+    // encoder into a never-fresh scanner (one monitored region per (kind, number) row)
+    if cfg.thorough && cfg.release && !cfg.as_c18 {
+        par(cfg, rep, |shard, nsh, rep| {
+            let mut sc = ParameterNumberMessageScanner::new();
+            let mut evals = 0u64;
+            for n in (shard as u16..16384).step_by(nsh) {
+                let c = (n % 16) as u8;
+                for (reg, kind, name) in KINDS.iter().copied() {
+                    let vmax: u16 = if kind == 1 { 16383 } else { 127 };
+                    crate::mon::set_case("pn-scan-row", [reg as i64, kind as i64, c as i64, n as i64, 0, 0]);
+                    let r = api("ParameterNumberMessage::to_short_messages -> ParameterNumberMessageScanner::feed (row)", || {
+                        let mut bad: Option<u32> = None;
+                        for v in 0..=vmax {
+                            let m = construct(reg, kind, c, n, v);
+                            let order = if kind == 1 || v % 2 == 0 { DataEntryByteOrder::LsbFirst } else { DataEntryByteOrder::MsbFirst };
+                            let enc: [Option<RawShortMessage>; 4] = m.to_short_messages(order);
+                            let k = enc.iter().flatten().count();
+                            for (i, sm) in enc.iter().flatten().enumerate() {
+                                let out = sc.feed(sm);
+                                let ok = if i + 1 == k { out == Some(m) } else { out.is_none() };
+                                if !ok && bad.is_none() {
+                                    bad = Some(v as u32);
+                                }
+                            }
+                        }
+                        bad
+                    });
+                    evals += vmax as u64 + 1;
+                    if r != Some(None) {
+                        crate::viol!(
+                            rep,
+                            format!("C10:full-product:{}", name),
+                            format!("{}(ch {}, number {}, value {:?}): feeding the encoder's output did not report exactly the original on the last message", name, c, n, r.flatten()),
+                            json!({"kind":"pn-message","constructor":name,"channel":c,"number":n,"first_bad_value":r.flatten()})
+                        );
+                    }
+                }
+            }
+            rep.evaluations += evals;
+            rep.distinct_nontrivial += evals;
+            rep.count("full_product_units", evals);
+        });
+    }
     // a very long run of one documented form after a 14-bit message (wrapping counters): the
     // same 7-bit message encoded and fed 70 000 times must be reported 70 000 times
     if !cfg.as_c18 {
